@@ -1,4 +1,5 @@
 """Modular call rule: assert pre; per case: assume requires, havoc frame, assume ensures."""
+import os
 import z3
 from .values import *  # noqa
 from .state import *  # noqa
@@ -51,14 +52,24 @@ def apply_contract(eng, st, con, pos, kw, constructing=None):
         st, selfv = con.result(eng, st, E0)
         a["self"] = selfv
         E0 = Env(a, st, eng=eng)
+    # the callee's precondition is obliged from what the CALLER knows: the callee's `axioms=` (definitions of ITS spec functions) are
+    # assumed only afterwards.  (They used to be assumed first; an axiom that says more than a definition - found with a fastcc
+    # contract - then made the precondition follow from the callee's own axiom and a mutant verified.)  PYVC_AXIOMS_FIRST=1 restores
+    # the old order for comparison.
     ax = con.axioms(E0)
-    if ax:
+    axioms_first = bool(os.environ.get("PYVC_AXIOMS_FIRST")) or getattr(con, "axioms_before_pre", False)
+    if ax and axioms_first:
         known = {c.get_id() for c in st.pc}
         st = st.assume(*[c for c in ax if c.get_id() not in known])
         E0 = Env(a, st, eng=eng)
     pre = con.pre(E0)
     if not z3.is_true(pre):
         eng.oblige(st, pre, f"call:{con.key}/pre", kind="callpre")
+    if ax and not axioms_first:
+        known = {c.get_id() for c in st.pc}
+        st = st.assume(*[c for c in ax if c.get_id() not in known])
+        E0 = Env(a, st, eng=eng)
+    if not z3.is_true(pre):
         st = st.assume(pre)
     res = []
     reqs = []
